@@ -298,6 +298,17 @@ def classify_failure(harness, model, seed, i, f):
         if strict and (G.nonsimple_params_with_raw(var) or G.nonsimple_params_with_raw(prog)):
             return SIG_PARAMS
         return None
+    def more_reference_errors():
+        # symptom of the known parameter-store defect: goja raises a ReferenceError (TDZ) the semantics does not;
+        # the opposite direction (a ReferenceError goja fails to raise) is never attributed to it
+        if not model:
+            return False
+        g = run_harness(harness, [json.dumps({'id': 'v', 'src': placement_src(var, pl), 'strict': strict, 'timeout_ms': 3000})])
+        vv = var if pl != 'function' else G.function_placement(var)
+        m = run_proc([model], ['run %d %s' % (FUEL, G.to_sexp(vv, strict))])
+        if 'v' not in g or not m or not comparable(m[0]):
+            return False
+        return g['v']['out'].count('<ReferenceError>') > m[0].count('<ReferenceError>')
     try:
         if pair_ok(harness, model, prog, var, strict, pl):
             return None                      # does not reproduce in isolation: leave it unclassified
@@ -316,7 +327,7 @@ def classify_failure(harness, model, seed, i, f):
                 continue
             if 'R' in sub and raw_sig() is None:
                 continue
-            if 'P' in sub and not fwdpat:
+            if 'P' in sub and not (fwdpat and more_reference_errors()):
                 continue
             if pair_ok(harness, model, apply(prog, sub), apply(var, sub), strict, pl):
                 return {'P': SIG_FWDPARAM, 'T': SIG_FINALLY, 'J': SIG_JUMP, 'R': raw_sig()}[sub[0]]   # P, J, R before T
